@@ -36,6 +36,8 @@ enum Ty {
     List(Box<Ty>),
     Tuple(Vec<Ty>),
     Opt(Box<Ty>),
+    Res(Box<Ty>),   // Result<T, ErrorCode-like extern enum>: `rres T`
+    F32,
     Named(String),  // local struct / enum
     Extern(String), // external C-like enum, modelled by its discriminant (N)
     Unknown,
@@ -44,13 +46,15 @@ enum Ty {
 impl Ty {
     fn coq(&self) -> String {
         match self {
-            Ty::Int(k) if k == "i32" || k == "i64" || k == "isize" => "Z".into(),
+            Ty::Int(k) if is_signed(k) => "Z".into(),
             Ty::Int(_) | Ty::Extern(_) | Ty::F64 => "N".into(),
             Ty::Bool => "bool".into(),
             Ty::Ptr => "(option N)".into(),
             Ty::Unit => "unit".into(),
             Ty::List(t) => format!("(list {})", t.coq()),
             Ty::Opt(t) => format!("(option {})", t.coq()),
+            Ty::Res(t) => format!("(rres {})", t.coq()),
+            Ty::F32 => "N".into(),
             Ty::Tuple(ts) => {
                 if ts.is_empty() {
                     "unit".into()
@@ -74,6 +78,7 @@ struct Sig {
     recv: Option<bool>,                // None = static, Some(true) = &mut self, Some(false) = &self / self
     params: Vec<(String, Ty, bool)>,   // name, type, is &mut
     ret: Ty,
+    dropped: Vec<usize>,               // positions of parameters that are not modelled (allocators)
 }
 
 struct Cfg {
@@ -91,6 +96,10 @@ struct Cfg {
     ptr_buffer: Option<String>,              // the field of `self` that raw destination pointers point into
     also: Vec<(String, Vec<String>)>,        // further source files whose types / signatures are known (generated elsewhere)
     synth_structs: Vec<String>,              // `Name{field:Type,..}`: a struct defined in another file, only these fields used
+    foreign_types: Vec<String>,              // `Name{..}` (struct, `f:T;..`) or `Name{A;B(T);..}` (enum): defined by hand in an imported file
+    extern_fns: HashMap<String, (String, String)>, // `path::f` -> (Gallina function, result type)
+    drop_params: HashSet<String>,
+    impl_of: HashSet<String>,                // foreign types whose (selected) methods are translated here
 }
 
 struct Tr {
@@ -161,7 +170,8 @@ impl Tr {
     }
     fn ty_name(&self, last: &str, p: &TypePath) -> R<Ty> {
         Ok(match last {
-            "usize" | "u8" | "u16" | "u32" | "u64" | "u128" | "Val" | "isize" | "i32" | "i64" => Ty::Int(last.into()),
+            "usize" | "u8" | "u16" | "u32" | "u64" | "u128" | "Val" | "isize" | "i8" | "i16" | "i32" | "i64" => Ty::Int(last.into()),
+            "f32" => Ty::F32,
             "bool" => Ty::Bool,
             "f64" => Ty::F64,
             "Self" => Ty::Named("Self".into()),
@@ -195,6 +205,14 @@ impl Tr {
     }
 }
 
+fn bytes_of(k: &str) -> &'static str {
+    match k { "i8" | "u8" => "1", "i16" | "u16" => "2", "i32" | "u32" | "f32" => "4", _ => "8" }
+}
+
+fn is_signed(k: &str) -> bool {
+    matches!(k, "i8" | "i16" | "i32" | "i64" | "isize")
+}
+
 fn int_lit(l: &LitInt) -> String {
     let d = l.base10_digits();
     d.to_string()
@@ -210,6 +228,8 @@ impl<'a> Fx<'a> {
             Ty::Named(n) if n == "Self" => self.tr.named(&self.self_ty),
             Ty::Named(n) => self.tr.named(&n),
             Ty::Opt(t) => Ty::Opt(Box::new(self.resolve_self(*t))),
+            Ty::Res(t) => Ty::Res(Box::new(self.resolve_self(*t))),
+            Ty::Tuple(ts) => Ty::Tuple(ts.into_iter().map(|t| self.resolve_self(t)).collect()),
             o => o,
         }
     }
@@ -414,6 +434,14 @@ impl<'a> Fx<'a> {
             }
             Expr::Try(t) => {
                 let (a, ty) = self.expr(&t.expr, pre)?;
+                if let Ty::Res(t) = ty {
+                    let v = self.fresh("q");
+                    let c = self.fresh("ec");
+                    let bail = self.ret_expr(Some(&format!("(RErr {})", c)));
+                    let _ = writeln!(pre, "match {} with RErr {} => {} | ROk {} =>", a, c, bail, v);
+                    self.calls.push(("".into(), " end".into()));
+                    return Ok((v, *t));
+                }
                 let inner = match ty {
                     Ty::Opt(t) => *t,
                     _ => Ty::Unknown,
@@ -423,6 +451,12 @@ impl<'a> Fx<'a> {
                 let _ = writeln!(pre, "match {} with None => {} | Some {} =>", a, none, v);
                 self.calls.push(("".into(), " end".into()));
                 Ok((v, inner))
+            }
+            Expr::Array(a) => {
+                let mut atoms = vec![];
+                let mut t = Ty::Unknown;
+                for x in &a.elems { let (v, ty) = self.expr(x, pre)?; atoms.push(v); t = ty; }
+                Ok((format!("[{}]", atoms.join("; ")), Ty::List(Box::new(t))))
             }
             Expr::MethodCall(m) => self.method_call(m, pre),
             Expr::Call(c) => self.call(c, pre),
@@ -472,8 +506,8 @@ impl<'a> Fx<'a> {
         match k {
             "usize" | "isize" => "W".into(),
             "Val" => if self.tr.cfg.val_is_2w { "(2 * W)".into() } else { "W".into() },
-            "u8" => "8".into(),
-            "u16" => "16".into(),
+            "u8" | "i8" => "8".into(),
+            "u16" | "i16" => "16".into(),
             "u32" | "i32" => "32".into(),
             "u64" | "i64" => "64".into(),
             "u128" => "128".into(),
@@ -484,8 +518,15 @@ impl<'a> Fx<'a> {
     fn cast(&mut self, a: String, from: Ty, to: Ty, sp: Span) -> R<(String, Ty)> {
         match (&from, &to) {
             (_, Ty::Unknown) => Ok((a, from)), // `as _`: type decided by the callee; handled at call sites
+            (Ty::Int(f), Ty::F64) => Ok((if is_signed(f) { format!("(of_int {})", a) } else { format!("(of_int (Z.of_N {}))", a) }, Ty::F64)),
+            (Ty::F32, Ty::F64) => Ok((format!("(of_f32 {})", a), Ty::F64)),
+            (Ty::F64, Ty::F64) => Ok((a, Ty::F64)),
+            (Ty::Int(f), Ty::Int(t)) if !is_signed(f) && is_signed(t) && self.bits_of(f) == self.bits_of(t) => {
+                // reinterpretation of the same bits as two's complement
+                Ok((format!("(to_signed {} {})", bytes_of(t), a), to))
+            }
             (Ty::Int(f), Ty::Int(t)) => {
-                let signed = |k: &str| k == "i32" || k == "i64" || k == "isize";
+                let signed = |k: &str| is_signed(k);
                 if f == t || (signed(f) && signed(t) && self.bits_of(f) != self.bits_of(t) && f == "i32") {
                     // same type, or the sign extension i32 -> i64 (a mathematical integer stays what it is)
                     Ok((a, to))
@@ -782,6 +823,40 @@ impl<'a> Fx<'a> {
                 }
             }
         }
+        // `r.map(|n| e)` / `r.and_then(|n| e)` / `r.and_then(path)` on a `Result<_, ErrorCode>`: the receiver is evaluated first
+        // (with its side effects on places), the closure body afterwards, in the updated environment
+        if (name == "map" || name == "and_then") && args.len() == 1 && matches!(args[0], Expr::Closure(_) | Expr::Path(_)) {
+            let (r, rt) = self.expr(&m.receiver, pre)?;
+            if let Ty::Res(inner) = rt {
+                let (pname, body_owned): (String, Expr) = match args[0] {
+                    Expr::Closure(c) => {
+                        let pn = match c.inputs.first() { Some(Pat::Ident(i)) => i.ident.to_string(), _ => return err("closure parameter", c.span()) };
+                        (pn, (*c.body).clone())
+                    }
+                    Expr::Path(p) => {
+                        let pn = self.fresh("x");
+                        let callee = { use quote::ToTokens; p.to_token_stream().to_string() };
+                        let e: Expr = syn::parse_str(&format!("{}({})", callee, pn)).map_err(|e| e.to_string())?;
+                        (pn, e)
+                    }
+                    _ => unreachable!(),
+                };
+                let saved = self.tyenv.get(&pname).cloned();
+                self.tyenv.insert(pname.clone(), *inner);
+                let mut p2 = String::new();
+                let depth = self.calls.len();
+                let (b, bt) = self.expr(&body_owned, &mut p2)?;
+                let closers = self.close(depth);
+                match saved { Some(t) => { self.tyenv.insert(pname.clone(), t); } None => { self.tyenv.remove(&pname); } }
+                let (inner_res, out_ty) = if name == "map" { (format!("(ROk {})", paren(&b)), Ty::Res(Box::new(bt))) } else { (b.clone(), bt) };
+                let v = self.fresh("m");
+                let c = self.fresh("ec");
+                let _ = writeln!(pre, "gbind (match {} with ROk {} => ({}GOk {}{}) | RErr {} => GOk (RErr {}) end) (fun {} =>", r, pname, p2, inner_res, closers, c, c, v);
+                self.calls.push(("".into(), ")".into()));
+                return Ok((v, out_ty));
+            }
+            return err("map/and_then on a value that is not a Result<_, ErrorCode>", m.span());
+        }
         // pure built-ins on values
         match name.as_str() {
             "min" | "max" => {
@@ -892,6 +967,8 @@ impl<'a> Fx<'a> {
     }
 
     fn invoke(&mut self, sig: &Sig, recv: Option<(String, Vec<(String, String)>)>, args: &[&Expr], pre: &mut String, sp: Span) -> R<(String, Ty)> {
+        let kept: Vec<&Expr> = args.iter().enumerate().filter(|(k, _)| !sig.dropped.contains(k)).map(|(_, a)| *a).collect();
+        let args: &[&Expr] = &kept;
         if args.len() != sig.params.len() {
             return err("argument count", sp);
         }
@@ -947,6 +1024,8 @@ impl<'a> Fx<'a> {
             Ty::Named(n) if n == "Self" => self.tr.named(owner),
             Ty::Named(n) => self.tr.named(n),
             Ty::Opt(t) => Ty::Opt(Box::new(self.resolve_self_in(t, owner))),
+            Ty::Res(t) => Ty::Res(Box::new(self.resolve_self_in(t, owner))),
+            Ty::Tuple(ts) => Ty::Tuple(ts.iter().map(|t| self.resolve_self_in(t, owner)).collect()),
             o => o.clone(),
         }
     }
@@ -961,6 +1040,27 @@ impl<'a> Fx<'a> {
         let joined = segs.join("::");
         if joined.ends_with("ptr::null") {
             return Ok(("None".into(), Ty::Ptr));
+        }
+        if let Some((f, t)) = self.tr.cfg.extern_fns.get(&joined).cloned() {
+            let mut call = format!("({}", f);
+            for a in &args { let (v, _) = self.expr(a, pre)?; let _ = write!(call, " {}", paren(&v)); }
+            call.push(')');
+            let ty: Type = syn::parse_str(&t).map_err(|e| e.to_string())?;
+            return Ok((call, self.tr.ty(&ty)?));
+        }
+        if joined.ends_with("Vec::with_capacity_in") || joined.ends_with("Vec::new_in") || joined.ends_with("Vec::new") || joined.ends_with("Vec::with_capacity") {
+            return Ok(("[]".into(), Ty::List(Box::new(Ty::Unknown))));
+        }
+        if segs.len() == 2 && segs[1] == "from_be_bytes" {
+            // big-endian bytes -> the integer / the IEEE bit pattern
+            let (a, _) = self.expr(args[0], pre)?;
+            let k = segs[0].as_str();
+            return Ok(match k {
+                "f32" => (format!("(be_val {})", a), Ty::F32),
+                "f64" => (format!("(be_val {})", a), Ty::F64),
+                _ if is_signed(k) => (format!("(to_signed {} (be_val {}))", bytes_of(k), a), Ty::Int(k.into())),
+                _ => (format!("(be_val {})", a), Ty::Int(k.into())),
+            });
         }
         if joined.ends_with("mem::swap") {
             let (r1, f1) = self.place(args[0])?;
@@ -1031,6 +1131,14 @@ impl<'a> Fx<'a> {
                 s.push(')');
                 return Ok((s, Ty::Named(owner)));
             }
+        }
+        if segs[0] == "Ok" && matches!(self.ret, Ty::Res(_)) {
+            let (v, t) = self.expr(args[0], pre)?;
+            return Ok((format!("(ROk {})", paren(&v)), Ty::Res(Box::new(t))));
+        }
+        if segs[0] == "Err" && matches!(self.ret, Ty::Res(_)) {
+            let (v, _) = self.expr(args[0], pre)?;
+            return Ok((format!("(RErr {})", paren(&v)), Ty::Res(Box::new(Ty::Unknown))));
         }
         if segs[0] == "Ok" || segs[0] == "Some" {
             let (v, t) = self.expr(args[0], pre)?;
@@ -1497,6 +1605,10 @@ fn main() {
         ptr_buffer: None,
         also: vec![],
         synth_structs: vec![],
+        foreign_types: vec![],
+        extern_fns: HashMap::new(),
+        drop_params: HashSet::new(),
+        impl_of: HashSet::new(),
     };
     let mut emit_consts = true;
     let mut i = 1;
@@ -1536,6 +1648,14 @@ fn main() {
                 cfg.also.push((f.into(), t.split(',').map(|s| s.to_string()).collect()));
             }
             "--struct" => cfg.synth_structs.push(v.clone()),
+            "--foreign" => cfg.foreign_types.push(v.clone()),
+            "--extern-fn" => {
+                let (a, b) = v.split_once('=').expect("--extern-fn path=f:Type");
+                let (f, t) = b.split_once(':').expect("--extern-fn path=f:Type");
+                cfg.extern_fns.insert(a.into(), (f.into(), t.into()));
+            }
+            "--impl-of" => { cfg.impl_of.extend(v.split(',').map(|s| s.to_string())); }
+            "--drop-param" => { cfg.drop_params.extend(v.split(',').map(|s| s.to_string())); }
             "--skip" => {
                 cfg.skip_fns.extend(v.split(',').map(|s| s.to_string()));
             }
@@ -1599,6 +1719,39 @@ fn run(src: &str, types: &[String], imports: &[String], cfg: Cfg, emit_consts: b
                 }
                 _ => {}
             }
+        }
+    }
+    // types defined by hand in an imported support file: known to the translation, never emitted
+    let foreign = std::mem::take(&mut tr.cfg.foreign_types);
+    for fdef in &foreign {   // names first (they may refer to each other)
+        let (name, rest) = fdef.split_once('{').ok_or("T8: --foreign Name{..}")?;
+        if rest.contains(':') { tr.structs.insert(name.trim().to_string(), vec![]); } else { tr.enums.insert(name.trim().to_string(), vec![]); }
+    }
+    for fdef in &foreign {
+        let (name, rest) = fdef.split_once('{').unwrap();
+        let name = name.trim().to_string();
+        let body = rest.trim_end_matches('}');
+        if body.contains(':') {
+            let mut fs = vec![];
+            for fd in body.split(';').filter(|x| !x.trim().is_empty()) {
+                let (fname, fty) = fd.split_once(':').unwrap();
+                let t: Type = syn::parse_str(fty.trim()).map_err(|e| e.to_string())?;
+                fs.push((fname.trim().to_string(), tr.ty(&t)?));
+            }
+            tr.structs.insert(name, fs);
+        } else {
+            let mut vs = vec![];
+            for vd in body.split(';').filter(|x| !x.trim().is_empty()) {
+                let vd = vd.trim();
+                let (vn, tys) = match vd.split_once('(') { Some((a, b)) => (a.trim(), b.trim_end_matches(')')), None => (vd, "") };
+                let mut ts = vec![];
+                for t in tys.split(',').filter(|x| !x.trim().is_empty()) {
+                    let ty: Type = syn::parse_str(t.trim()).map_err(|e| e.to_string())?;
+                    ts.push(tr.ty(&ty)?);
+                }
+                vs.push((vn.to_string(), ts));
+            }
+            tr.enums.insert(name, vs);
         }
     }
     let mut types: Vec<String> = types.to_vec();
@@ -1718,7 +1871,7 @@ fn run(src: &str, types: &[String], imports: &[String], cfg: Cfg, emit_consts: b
                 Type::Path(p) => path_str(&p.path).last().unwrap().clone(),
                 _ => continue,
             };
-            if !want.contains(&owner) {
+            if !want.contains(&owner) && !tr.cfg.impl_of.contains(&owner) {
                 continue;
             }
             for ii in &im.items {
@@ -1804,7 +1957,7 @@ fn run(src: &str, types: &[String], imports: &[String], cfg: Cfg, emit_consts: b
     // ---------------------------------------------------------------- output
     let mut o = String::new();
     let _ = writeln!(o, "(** GENERATED by translators/rs2v (T8) from {} - do not edit.\n    Every definition below is a mechanical translation of the Rust item named in the comment above it. *)", src_rel(src));
-    let _ = writeln!(o, "From Coq Require Import NArith List Bool.");
+    let _ = writeln!(o, "From Coq Require Import NArith ZArith List Bool.");
     let mut imp = vec!["Base.Bytes".to_string(), "Base.RsPrelude".to_string()];
     imp.extend(imports.iter().cloned());
     let _ = writeln!(o, "From SFV Require Import {}.", imp.join(" "));
@@ -1875,6 +2028,8 @@ fn run(src: &str, types: &[String], imports: &[String], cfg: Cfg, emit_consts: b
 fn sig_of(tr: &Tr, owner: &str, fsig: &Signature) -> R<Sig> {
     let mut recv = None;
     let mut params = vec![];
+    let mut dropped = vec![];
+    let mut pos = 0usize;
     for a in &fsig.inputs {
         match a {
             FnArg::Receiver(r) => recv = Some(r.reference.is_some() && r.mutability.is_some()),
@@ -1883,6 +2038,8 @@ fn sig_of(tr: &Tr, owner: &str, fsig: &Signature) -> R<Sig> {
                     Pat::Ident(i) => i.ident.to_string(),
                     _ => return err("parameter pattern", pt.span()),
                 };
+                if tr.cfg.drop_params.contains(&n) { dropped.push(pos); pos += 1; continue; }
+                pos += 1;
                 let is_mut = matches!(&*pt.ty, Type::Reference(r) if r.mutability.is_some());
                 params.push((n, tr.ty(&pt.ty)?, is_mut));
             }
@@ -1892,7 +2049,7 @@ fn sig_of(tr: &Tr, owner: &str, fsig: &Signature) -> R<Sig> {
         ReturnType::Default => Ty::Unit,
         ReturnType::Type(_, t) => ret_ty(tr, t)?,
     };
-    Ok(Sig { owner: owner.to_string(), name: fsig.ident.to_string(), recv, params, ret })
+    Ok(Sig { owner: owner.to_string(), name: fsig.ident.to_string(), recv, params, ret, dropped })
 }
 
 fn ret_ty(tr: &Tr, t: &Type) -> R<Ty> {
@@ -1902,7 +2059,14 @@ fn ret_ty(tr: &Tr, t: &Type) -> R<Ty> {
         if seg.ident == "Result" || seg.ident == "Option" {
             if let PathArguments::AngleBracketed(a) = &seg.arguments {
                 if let Some(GenericArgument::Type(inner)) = a.args.first() {
-                    return Ok(Ty::Opt(Box::new(tr.ty(inner)?)));
+                    if seg.ident == "Result" {
+                        if let Some(GenericArgument::Type(Type::Path(ep))) = a.args.iter().nth(1) {
+                            if tr.cfg.extern_enums.contains_key(&path_str(&ep.path).last().unwrap().clone()) {
+                                return Ok(Ty::Res(Box::new(ret_inner(tr, inner)?)));
+                            }
+                        }
+                    }
+                    return Ok(Ty::Opt(Box::new(ret_inner(tr, inner)?)));
                 }
             }
         }
@@ -1921,6 +2085,16 @@ fn calls_fn(body: &str, pat: &str) -> bool {
         from = at + 1;
     }
     false
+}
+
+/// the payload of a Result/Option: may itself contain Option (e.g. `(Self, Option<usize>)`)
+fn ret_inner(tr: &Tr, t: &Type) -> R<Ty> {
+    match t {
+        Type::Tuple(tt) => Ok(Ty::Tuple(tt.elems.iter().map(|e| ret_inner(tr, e)).collect::<R<Vec<_>>>()?)),
+        Type::Path(p) if p.path.segments.last().map_or(false, |s| s.ident == "Option") => ret_ty(tr, t),
+        Type::Reference(r) => ret_inner(tr, &r.elem),
+        _ => tr.ty(t),
+    }
 }
 
 fn src_rel(s: &str) -> String {
